@@ -11,7 +11,7 @@ bad=0
 for d in seeded/C*-*/; do
   n=$(basename $d); id=${n%-*}
   scratch=$(mktemp -d /tmp/verif-selftest-XXXX)
-  rsync -a --exclude target --exclude .git /repo/ $scratch/
+  rsync -a --exclude target --exclude .git ${VERIF_BASE_REPO:-/repo}/ $scratch/
   if ! (cd $scratch && patch -s -p1 < /verif/$d/patch.diff); then echo "$n APPLY-FAILED" >> $out; rm -rf $scratch; bad=1; continue; fi
   VERIF_REPO=$scratch VERIF_EVIDENCE_DIR=/tmp/verif-selftest-evidence ./check $id quick > /tmp/selftest.$n.log 2>&1; rc=$?
   want=${expect[$n]:-1}
